@@ -166,7 +166,7 @@ def derived_orientation_clause(cl, rng, n, replay):
                 kids, offs = hvsrpy.preprocess([rec], s), [q * 60 for q in range(4)]
             cl.case((j, how, theta))
             for kid, off in zip(kids, offs):
-                if abs(kid.degrees_from_north - theta) > 1e-9:
+                if not (abs(kid.degrees_from_north - theta) <= 1e-9):
                     cl.fail("hvsrpy.seismic_recording_3c.SeismicRecording3C." + ("split" if how in ("split", "preprocess-no-orient") else how.replace("-", "_")),
                             f"{how}: derived recording reports degrees_from_north={kid.degrees_from_north}, its source is at {theta}", signature="derived:orientation-value", how=how)
                     return
